@@ -789,7 +789,51 @@ def rule_l13(ctx, facts):
              "a key that tree-searching readers already found" % (early[0][0].span, early[0][1]))
 
 
+def rule_l14(ctx, facts, rule="L14", only=None):
+    """a writer whose head re-validation fails tries again: from the `no longer the head` edge no return of the function is reachable
+    without going through the header of the retry loop the lock acquisition sits in (where table and bin are read afresh).  A writer that
+    gives up there reports "nothing to do" for a key that is present and untouched -- the bin was merely replaced (untreeified, moved by
+    a resize) while it waited for the lock.  A region in no loop (treeify_bin: converting a bin is optional, the JDK gives up there too)
+    has nothing to retry."""
+    from .analysis import back_edges, loop_blocks, return_points
+    n = 0
+    for b in facts.bodies:
+        if only is not None and b.sid not in only:
+            continue
+        vs = [v for v in validated_regions(b) if bin_lock_region(v.region) and v.switch is not None]
+        if not vs:
+            continue
+        loops = [(h, loop_blocks(b, (t, h))) for t, h in back_edges(b, unwind=False)]
+        for v in vs:
+            r = v.region
+            what = "retry after a failed re-validation (lock at %s)" % r.call.span.split(":", 1)[1]
+            # the loop is the one the bin was read in (the locked arm itself is outside every natural loop when all its paths leave it)
+            lbs = {c0.point[0] for c0 in v.bin_calls}
+            inside = [(h, blks) for h, blks in loops if lbs & blks]
+            if not inside:
+                ctx.inst(rule, b, what, r.call.span, True, "the region is in no loop: nothing to retry (an optional conversion)", nontrivial=False)
+                continue
+            if b.sid == "map::HashMap::transfer":
+                # transfer's loop is a work loop, not a retry loop of one operation: it has no result to report, and each of its returns is
+                # judged by Z5 of C10 (dominated by the won `sc - 1` CAS of a participant that found nothing left to claim)
+                ctx.inst(rule, b, what, r.call.span, True, "transfer returns only as a participant that is done (rule Z5)", nontrivial=False)
+                continue
+            n += 1
+            # all the loops that contain the region share the property if the innermost does; a `continue` of an outer loop is a retry too
+            heads = {h for h, _ in inside}
+            out = reach(b, [Point(v.ne, 0)], avoid_blocks=heads, unwind=False)
+            rets = [rp for rp in return_points(b) if rp in out]
+            ctx.inst(rule, b, what, b.span_at(Point(v.switch, b.nstmts(v.switch))), not rets,
+                     "the edge on which the head has changed leads back to the head of the retry loop" if not rets else
+                     "when the locked node is no longer the head of its bin (validation at %s) the function can return (%s) without reading the "
+                     "bin again: an operation on a key that is present and untouched is reported as having found nothing"
+                     % (b.span_at(Point(v.switch, b.nstmts(v.switch))), b.span_at(rets[0])))
+    return n
+
+
 def run(ctx, facts):
+    ctx.rule("L14", "a writer whose head re-validation fails retries: no return is reachable from the `head has changed` edge without passing the head of the retry loop", floor=8, floor_note="clear x2, put x2, compute_if_present x2, replace_node x2")
+    rule_l14(ctx, facts)
     ctx.rule("L13", "a new tree-bin entry is published in the bin's list (first / next) before it is linked into the tree", floor=1)
     rule_l13(ctx, facts)
     ctx.rule("L10", "tree insertion and tree search descend to the same child for the same comparison outcome (sibling agreement)", floor=4)
